@@ -100,6 +100,15 @@ def rules(ctx, tier):
     stats_provenance(ctx, r)
     r.need(7, "read-view accessors + the statistics accessors of the API")
     out.append(r.finish())
+    from .base import share_rule
+    x = share_rule(ctx, tier, c18, "R2", "R6",
+                   "the recorded size is the length of the file at path(hash): the file is put there by an atomic replace "
+                   "with this transaction's staging file, and the size registered is this transaction's byte counter "
+                   "(shared with C18-R2)",
+                   "the blob is published with link(2): a torn file left at that path by an earlier crash stays, and the key "
+                   "is recorded with the new length over the old bytes")
+    if x is not None:
+        out.append(x)
     return out
 
 
